@@ -163,6 +163,70 @@ End EntryRun.
 Definition entry_run_valid (e : entry) (c : cfg) (ms : list (list hdr)) : res unit :=
   entry_run (Ok tt) (fun _ => Ok tt) (Ok true) (Ok tt) e c ms.
 
+(* ---------- object-level histories (JWE JSON objects are re-usable) ----------
+   GeneralJSONEncryption / FlattenedJSONEncryption carry the header in three
+   public places: obj.protected, obj.unprotected, recipient.header.  The caller
+   may edit them between operations (in place, by rebinding the attribute, with
+   Recipient.add_header, with add_recipient).  encrypt_json reads the fields AT
+   CALL TIME: Recipient.headers() merges the current dicts. *)
+Record jwe_obj := { o_protected : hdr; o_unprotected : option hdr; o_recipients : list (option hdr) }.
+
+Inductive edit :=
+| ESetP (k : str) (v : pv) | EDelP (k : str) | ERebindP (h : hdr)
+| ESetU (k : str) (v : pv) | EDelU (k : str) | ERebindU (h : option hdr)
+| ESetR (i : nat) (k : str) (v : pv) | EDelR (i : nat) (k : str) | ERebindR (i : nat) (h : option hdr)
+| EAddHeader (i : nat) (k : str) (v : pv)          (* recipient.add_header(k, v) *)
+| EAddRecipient (flattened : bool) (h : option hdr). (* obj.add_recipient(h, key) *)
+
+Fixpoint upd_nth {A} (l : list A) (i : nat) (f : A -> A) : list A :=
+  match l, i with
+  | [], _ => []
+  | x :: r, O => f x :: r
+  | x :: r, S j => x :: upd_nth r j f
+  end.
+
+Definition apply_edit (o : jwe_obj) (e : edit) : jwe_obj :=
+  let P := o_protected o in let U := o_unprotected o in let R := o_recipients o in
+  match e with
+  | ESetP k v => {| o_protected := dset P k v; o_unprotected := U; o_recipients := R |}
+  | EDelP k => {| o_protected := ddel P k; o_unprotected := U; o_recipients := R |}
+  | ERebindP h => {| o_protected := h; o_unprotected := U; o_recipients := R |}
+  | ESetU k v => {| o_protected := P; o_unprotected := option_map (fun u => dset u k v) U; o_recipients := R |}
+  | EDelU k => {| o_protected := P; o_unprotected := option_map (fun u => ddel u k) U; o_recipients := R |}
+  | ERebindU h => {| o_protected := P; o_unprotected := h; o_recipients := R |}
+  | ESetR i k v => {| o_protected := P; o_unprotected := U;
+                      o_recipients := upd_nth R i (option_map (fun h => dset h k v)) |}
+  | EDelR i k => {| o_protected := P; o_unprotected := U;
+                    o_recipients := upd_nth R i (option_map (fun h => ddel h k)) |}
+  | ERebindR i h => {| o_protected := P; o_unprotected := U; o_recipients := upd_nth R i (fun _ => h) |}
+  | EAddHeader i k v =>
+      (* elif self.header: self.header.update({k: v}) else: self.header = {k: v} *)
+      {| o_protected := P; o_unprotected := U;
+         o_recipients := upd_nth R i (fun h => match h with Some h' => Some (dset h' k v) | None => Some [(k, v)] end) |}
+  | EAddRecipient fl h =>
+      {| o_protected := P; o_unprotected := U; o_recipients := if fl then [h] else R ++ [h] |}
+  end.
+
+Definition final_state (o : jwe_obj) (es : list edit) : jwe_obj := fold_left apply_edit es o.
+
+Definition opt_part (h : option hdr) : list hdr := match h with Some x => [x] | None => [] end.
+(* Recipient.headers() of every recipient, from the CURRENT fields *)
+Definition obj_members (o : jwe_obj) : list (list hdr) :=
+  map (fun r => o_protected o :: opt_part (o_unprotected o) ++ opt_part r) (o_recipients o).
+
+Section ObjRun.
+  Variable pre : res unit.
+  Variable step : hdr -> res unit.
+  Variable verify : res bool.
+  Variable post : res unit.
+  (* jwe.encrypt_json(obj, ...) *)
+  Definition encrypt_json_obj (d : bool) (c : cfg) (o : jwe_obj) : res unit :=
+    entry_run pre step verify post (JweEncryptJson d) c (obj_members o).
+  (* ... after a history of edits of the object (whatever was done with it before) *)
+  Definition encrypt_json_history (d : bool) (c : cfg) (o : jwe_obj) (es : list edit) : res unit :=
+    encrypt_json_obj d c (final_state o es).
+End ObjRun.
+
 Inductive c15case :=
 (* registry.check_header(h[, check_more]) gave [expect]; the harness' own
    reading of the property gave [spec] *)
@@ -172,7 +236,11 @@ Inductive c15case :=
    per-recipient); it returned normally iff [accepted] *)
 | CApi (e : entry) (c : option cfg) (members : list (list hdr)) (accepted : bool)
        (* the class it raised, recorded when nothing else can fail before the header check *)
-       (raised : option exn).
+       (raised : option exn)
+(* a JWE JSON object in state [init] (as observed after a first operation) was
+   edited by [edits] and handed to jwe.encrypt_json again *)
+| CHist (d : bool) (c : option cfg) (init : jwe_obj) (edits : list edit) (accepted : bool)
+        (raised : option exn).
 
 Definition unit_eqb (a b : unit) : bool := true.
 
@@ -195,8 +263,16 @@ Definition c15_check (x : c15case) : bool :=
       | None => true
       | Some x => match r with Err x' => exn_eqb x x' | Ok _ => false end
       end
+  | CHist d c init es acc raised =>
+      let r := encrypt_json_history (Ok tt) (fun _ => Ok tt) (Ok true) (Ok tt) d (the_cfg (RJwe d) c) init es in
+      Bool.eqb (is_ok r) acc &&
+      match raised with
+      | None => true
+      | Some x => match r with Err x' => exn_eqb x x' | Ok _ => false end
+      end
   end.
 
+Definition c15_show_placeholder := tt.
 Definition c15_show (x : c15case) : list (res unit) * list bool :=
   match x with
   | CCheck rk c cm h _ _ => ([run_check rk (the_cfg rk c) cm h], [run_spec rk (the_cfg rk c) cm h])
@@ -204,4 +280,9 @@ Definition c15_show (x : c15case) : list (res unit) * list bool :=
       (entry_run_valid e (the_cfg (entry_rk e) c) ms ::
        map (fun parts => run_check (entry_rk e) (the_cfg (entry_rk e) c) (entry_cm e) (entry_header e parts)) ms,
        map (fun parts => run_spec (entry_rk e) (the_cfg (entry_rk e) c) (entry_cm e) (entry_header e parts)) ms)
+  | CHist d c init es _ _ =>
+      let ms := obj_members (final_state init es) in
+      (entry_run_valid (JweEncryptJson d) (the_cfg (RJwe d) c) ms ::
+       map (fun parts => run_check (RJwe d) (the_cfg (RJwe d) c) false (merge_parts parts)) ms,
+       map (fun parts => run_spec (RJwe d) (the_cfg (RJwe d) c) false (merge_parts parts)) ms)
   end.
